@@ -2,12 +2,21 @@
 import os, re, time
 from . import common as C
 from .e1 import E1
+from .e2 import E2, load_table
 
 E1_ASSUMPTIONS = [
     "E1: RustFFT's generic code is executed with the element type `Sym` (symlift/src/sym.rs); every ring operation on a symbolic operand appends a term, any other operation on a symbolic value aborts the run (inconclusive), so no data-dependent path can be silently followed",
     "E1: real constants enter only through FromPrimitive::from_f64; each is identified as cos/sin(2*pi*k/L) (within 4e-15, (cos,sin) pairs resolved jointly through atan2) or an exact dyadic rational, and mapped by the ring homomorphism Z[zeta_M,1/2,1/m] -> F_p (p = 1 mod M, p > 2^40, chosen from VERIF_SEED); an identity that holds over C with exact cos/sin holds in the image, a wrong coefficient survives only if p divides its norm",
     "E1: verdicts are z3 4.8.12 / cvc5 1.0 answers on the SMT-LIB2 integer encoding (QF_LIA, `mod p` only in the final disequalities); any '(error' line, 'unknown' or timeout is inconclusive; a sample of queries is answered by both solvers and the answers compared",
     "E1: f32/f64 instantiations of the portable code share every MIR statement with the `Sym` instantiation (same generic functions); floating-point rounding (C02) and the SSE/AVX kernels and planners are outside the claim",
+]
+
+
+E2_ASSUMPTIONS = [
+    "E2: Kani 0.68 / CBMC 6.11 bit-precise bounded model checking of the compiled generic code with element type Tag (taint ring, 1 byte) or U (unit ring); all pointer dereferences, get_unchecked/ptr::add/copy_nonoverlapping, arithmetic overflow and panics are checked on every path for every value of the symbolic call shape; #[kani::unwind] with unwinding assertions (a too-small bound is inconclusive, not a pass); a kani::cover! reachability witness per harness",
+    "E2: inner transforms of wrappers are `Contract` objects: arbitrary (symbolic, bounded) advertised scratch needs; their process_* methods assert the caller obligations documented on the Fft trait and clobber what the contract lets them clobber; a wrapper verified against Contract is verified against every inner transform honouring the trait documentation",
+    "E2: stubs: transpose::transpose (dependency crate, not RustFFT) is replaced by a model with the same contract and checked indexing; cos/sin are Kani's nondeterministic over-approximations (ignored by Tag/U::from_f64)",
+    "E2: chunk counts and lengths are compile-time constants per harness (listed in the bounds); scratch length = advertised + {0,1,2} symbolic; ill-shaped calls use heap buffers of exactly the symbolic lengths (every length 0..=2n+1)",
 ]
 
 
@@ -104,6 +113,38 @@ class Result:
                 "queries": [{k: q.get(k) for k in ("name", "verdict", "vars", "cone", "by_solver", "dedup_of") if k in q} for q in r["queries"]][:6],
                 "twin": r.get("twin"),
             })
+
+    def add_e2(self, title, e2, summary, bounds):
+        self.violations += e2.violations
+        self.inconclusive += e2.inconclusive
+        self.known_hits += e2.known_hits
+        part = {"engine": "E2 kshape: Kani 0.68 / CBMC 6.11 (CaDiCaL)", "title": title, "bounds": bounds}
+        part.update(summary)
+        part["slowest"] = [[r["harness"], r["wall_s"]] for r in sorted(e2.records, key=lambda r: -(r["wall_s"] or 0))[:5]]
+        self.parts.append(part)
+        self.obligations += summary["harnesses"]
+        self.discharged += summary["holds"]
+        self.evaluations += summary["harnesses"]
+        self.distinct += summary["harnesses"]
+        self.solver_s += summary["cbmc_s"]
+        self.bounds.append(bounds)
+        for a in E2_ASSUMPTIONS:
+            if a not in self.assumptions:
+                self.assumptions.append(a)
+        units = sorted({r["meta"].get("unit", r["harness"]) for r in e2.records})
+        for u in units:
+            self.functions.add("kani:" + u)
+        recs = sorted(e2.records, key=lambda r: r["harness"])
+        step = max(1, len(recs) // 6)
+        for r in recs[::step][:8]:
+            self.samples.append({"obligation": "kani harness " + r["harness"], "verdict": r["verdict"], "cbmc_status": r["status"], "checks": r["checks"],
+                                 "reachability_cover": r["cover"], "expected_panics_seen": r["failed"], "cbmc_s": r["cbmc_s"], "meta": r["meta"]})
+        try:
+            import json as _j
+            with open(os.path.join(C.WORK, f"{self.pid}-{self.tier}-{len(self.parts)}-e2records.json"), "w") as fh:
+                _j.dump(e2.records, fh)
+        except Exception:
+            pass
 
     def finish(self, wall):
         cov = {
@@ -293,7 +334,46 @@ def check_c14(pid, tier, seed, only):
     return res
 
 
+def _e2(pid, tier, seed, timeout=None, **kw):
+    return E2(pid, tier, seed, timeout or (600 if tier == "quick" else 2400), **kw)
+
+
+def e2_cost(table):
+    def cost(h):
+        m = table.get(h, {})
+        n, k = m.get("n", 1), max(1, m.get("k", 2))
+        w = {"wrapper": 30, "radix": 6, "dft": 3}.get(m.get("group"), 1)
+        return n * k * w * (2 if m.get("kind") == "ill" else 1)
+    return cost
+
+
+def select(table, tier, pred):
+    return sorted(h for h, m in table.items() if (tier == "thorough" or m.get("quick")) and pred(m))
+
+
+def run_e2(res, pid, tier, seed, only, pred, title, bounds, **kw):
+    e2 = _e2(pid, tier, seed, **kw)
+    hs = _filter(select(e2.table, tier, pred), only)
+    if not hs:
+        return None
+    s = e2.run(hs, cost=e2_cost(e2.table))
+    units = sorted({e2.table[h]["unit"] for h in hs})
+    b = dict(bounds, harnesses=len(hs), units=units, per_harness_timeout_s=e2.timeout, workers=e2.workers)
+    res.add_e2(title, e2, s, b)
+    return e2
+
+
+def check_c15(pid, tier, seed, only):
+    res = Result(pid, tier, seed)
+    run_e2(res, pid, tier, seed, only, lambda m: m["kind"] == "well" and m["entry"] == "imm",
+           "process_immutable_with_scratch leaves every input element unchanged (Tag snapshot comparison) for every symbolic scratch length and inner-scratch need; also nothing outside the caller slices is written",
+           {"chunk_counts": "1..3 (butterflies <= 13, dft), 1..2 (wrappers, larger butterflies)", "scratch": "advertised + {0,1,2}", "inner_needs": "0..=len+2 (symbolic)"})
+    res.outside += ["calls that end in a panic (Kani cannot observe state after a panic)", "SSE/AVX kernels and planned SIMD transforms"]
+    return res
+
+
 CHECKS = {
+    "C15": check_c15,
     "C01": check_c01,
     "C06": check_c06,
     "C07": check_c07,
